@@ -1090,6 +1090,7 @@ pub fn run(ops: &[String]) -> Vec<String> {
 				}
 				"twchk" => {
 					tween_time_oracle(&tok, l, &ids, out);
+					tween_during_oracle(&tok, l, &ids, out);
 					out.put("ok");
 				}
 				"run" => {
@@ -1673,7 +1674,8 @@ pub fn gen(rng: &mut Rng, n: usize, thorough: bool, stats: &mut Stats) -> Vec<St
 			continue;
 		}
 		if rng.chance(1, 8) {
-			gen_tween_time_case(rng, case, stats, &mut out);
+			let during = rng.chance(2, 5);
+			gen_tween_time_case(rng, case, during, stats, &mut out);
 			continue;
 		}
 		let ind = !rng.chance(1, 7);
@@ -1906,10 +1908,103 @@ fn tween_time_oracle(tok: &[&str], line: &str, ids: &Ids, out: &mut Out) {
 	}
 }
 
+/// The same `twchk` line, DURING the tween (C13 "chunk-free" / C06 "follows its easing, never jumps"): for the
+/// parameters kira's `process` evaluates once per FRAME (`interpolated_value(time_in_chunk)`: volume, panning, every
+/// filter / eq / distortion parameter, the compressor's makeup gain and mix — NOT its threshold, ratio, attack,
+/// release, which are read once per block) instance A (blocks of N) and instance C (frame by frame) must agree
+/// while the tween is under way.  Premise: Linear easing and no start delay — A interpolates linearly between the
+/// tween's values at the block ends, which for a Linear tween is the same line C samples frame by frame, so both see
+/// the same parameter values up to rounding; filter/eq: a well-conditioned design at BOTH ends of the tween.
+/// Compared: the blocks lying wholly inside the tween except the first one and the last one before the block in
+/// which the tween ends (in that block A interpolates towards the already-reached target: a different line).
+fn tween_during_oracle(tok: &[&str], line: &str, ids: &Ids, out: &mut Out) {
+	let (sr, n) = (pu(tok[1]) as u32, pu(tok[2]) as usize);
+	let (param, target) = (tok[3], tok[4]);
+	let (delay, dur) = (pu(tok[5]), pu(tok[6]));
+	let (amp, mut seed) = (p32(tok[8]), pu(tok[9]));
+	let new = &tok[10..];
+	let kind = new[1];
+	let dt = 1.0 / sr as f64;
+	if delay != 0 || !matches!(parse_easing(tok[7]), kira::Easing::Linear) {
+		return;
+	}
+	if kind == "comp" && !(param == "makeup" || param == "mix") {
+		return;
+	}
+	if !matches!(kind, "vol" | "pan" | "dist" | "filter" | "eq" | "comp") {
+		return;
+	}
+	let pos = params_of(kind).iter().position(|(p, _, _)| *p == param).expect("twchk: parameter");
+	let mut fin: Vec<&str> = new.to_vec();
+	fin[2 + has_mode(kind) as usize + pos] = target;
+	if kind == "filter" || kind == "eq" {
+		for v in [new, &fin[..]] {
+			let (rf, g, k) = Spec::from_new(v, true).design(dt).unwrap();
+			if !(rf < 0.45 && pole_radius(g, k) < 1.0) {
+				return;
+			}
+		}
+	}
+	// blocks 1 ..= last are compared: block j covers tween time (j·N·dt, (j+1)·N·dt]
+	let tween_frames = dur as f64 * 1e-9 * sr as f64;
+	let inside = (tween_frames / n as f64).floor() as usize;
+	if inside < 3 || amp == 0.0 {
+		return;
+	}
+	let last = inside - 2;
+	let tween = Tween { start_time: kira::StartTime::Immediate, duration: Duration::from_nanos(dur), easing: kira::Easing::Linear };
+	let mk = |ibs: usize| {
+		let mut i = build(new, ids);
+		i.fx.init(sr, ibs);
+		i.fx.on_start_processing();
+		i.set(param, target, tween, ids);
+		i.fx.on_start_processing();
+		i
+	};
+	let (mut a, mut c) = (mk(n), mk(1));
+	let info = kira::info::MockInfoBuilder::new().build();
+	let mut worst = 0.0f64;
+	for j in 0..=last {
+		let x = lcg_frames(&mut seed, amp, n);
+		let (mut xa, mut xc) = (x.clone(), x);
+		a.process(&mut xa, dt, &info);
+		for f in xc.chunks_mut(1) {
+			c.process(f, dt, &info);
+		}
+		if !(all_finite(&xa) && all_finite(&xc)) {
+			return;
+		}
+		if j >= 1 {
+			for (p, q) in xa.iter().zip(&xc) {
+				worst = worst.max((p.left as f64 - q.left as f64).abs()).max((p.right as f64 - q.right as f64).abs());
+			}
+		}
+	}
+	let rel = worst / amp.abs() as f64;
+	if std::env::var("FXA_DURING_STAT").is_ok() {
+		eprintln!("DURING {} {} n={} inside={} rel={:e}", kind, param, n, inside, rel);
+	}
+	evald(out, "tween_block_size_invariance_during");
+	if rel > DURING_TOL {
+		out.oracle_fail(
+			"tween_block_size_invariance_during",
+			format!("{} {}: blocks of {} vs 1 differ by {:e}·amp while the tween is under way | {}", kind, param, n, rel, line),
+		);
+	}
+}
+/// relative to the noise amplitude; see notes/C13-during.md for the measured margin on the unchanged code
+const DURING_TOL: f64 = 1e-3;
+
 /// one case per (effect, parameter): moderate fixed settings, the parameter tweened to another value while the
 /// effect runs in blocks of N > 1 frames (ops mirrored by the twin), then the `twchk` oracle on the same data
-fn gen_tween_time_case(rng: &mut Rng, case: usize, stats: &mut Stats, out: &mut Vec<String>) {
-	let all: Vec<(&str, &str)> = PARAMS.iter().flat_map(|(k, ps)| ps.iter().map(move |(p, _, _)| (*k, *p))).collect();
+///
+/// `during`: the family for `tween_block_size_invariance_during` — a filter/eq parameter, Linear easing, no start
+/// delay, large blocks (64–512 frames) and a tween only a few (3–10 and a fraction) blocks long
+fn gen_tween_time_case(rng: &mut Rng, case: usize, during: bool, stats: &mut Stats, out: &mut Vec<String>) {
+	let mut all: Vec<(&str, &str)> = PARAMS.iter().flat_map(|(k, ps)| ps.iter().map(move |(p, _, _)| (*k, *p))).collect();
+	if during {
+		all.retain(|(k, _)| *k == "filter" || *k == "eq");
+	}
 	let (kind, param) = all[rng.below(all.len() as u64) as usize];
 	let f32s = |rng: &mut Rng, pool: &[f32]| format!("fix:{}", o32(rng.pick(pool)));
 	let f64s = |rng: &mut Rng, pool: &[f64]| format!("fix:{}", o64(rng.pick(pool)));
@@ -1961,6 +2056,16 @@ fn gen_tween_time_case(rng: &mut Rng, case: usize, stats: &mut Stats, out: &mut 
 	let amp = rng.pick(&[0.5f32, 0.25, 1.0]);
 	let seed = rng.below(1 << 40);
 	let dt = 1.0 / sr as f64;
+	let (n, delay, dur, easing) = if during {
+		let n = rng.pick(&[64u64, 128, 256, 512]);
+		let frames = n * (3 + rng.below(8)) + rng.below(n);
+		(n, 0, (frames as f64 * 1e9 / sr as f64) as u64, fmt_easing(&kira::Easing::Linear))
+	} else {
+		(n, delay, dur, easing)
+	};
+	if during {
+		stats.hit("tween_during_case");
+	}
 	out.push(format!("case {} in", case));
 	out.push(new.clone());
 	out.push(format!("init {} {}", sr, n));
